@@ -2,6 +2,7 @@ use crate::fw::Ctx;
 
 pub mod c03;
 pub mod c04;
+pub mod c05;
 pub mod c06;
 pub mod c07;
 pub mod c12;
@@ -19,6 +20,7 @@ pub struct Prop {
 pub const PROPS: &[Prop] = &[
     Prop { id: "C03", run: c03::run, replay: c03::replay },
     Prop { id: "C04", run: c04::run, replay: c04::replay },
+    Prop { id: "C05", run: c05::run, replay: c05::replay },
     Prop { id: "C06", run: c06::run, replay: c06::replay },
     Prop { id: "C07", run: c07::run, replay: c07::replay },
     Prop { id: "C12", run: c12::run, replay: c12::replay },
@@ -79,7 +81,7 @@ pub fn explore(args: &[String]) {
                     }
                 };
                 let bc = c.program.to_bytecode(c.entry);
-                let cfg = crate::sim::SimCfg { workers, quanta: vec![quantum], schedule: vec![], max_moves: 200_000 };
+                let cfg = crate::sim::SimCfg { workers, quanta: vec![quantum], schedule: vec![], max_moves: 200_000, env_slow: 0 };
                 let r = crate::sim::run_program(&bc, cfg, &reg, None, |_, _| Ok(()));
                 println!("{}\n  => end={:?} result={} moves={} clock={}", prog.trim(), r.end, r.result.as_ref().map(|x| match x { Ok(v) => v.to_string(), Err(e) => format!("ERR {e:?}") }).unwrap_or("<none>".into()), r.moves, r.clock);
                 for (pid, pr) in &r.processes {
